@@ -121,7 +121,8 @@ Proof.
     + (* no prefix: the name starts with ':' *)
       cbn [app] in S1. subst r0. cbn [starts_with] in Hc. apply N.eqb_eq in Hc. subst c.
       change (number_plus 58) with false. change (not_name 58) with true. cbv iota.
-      cbn [starts_with]. change (58 =? 58) with true. cbv iota. cbn [tl] in *. rewrite Hloc. rewrite Hgb. reflexivity.
+      cbn [starts_with]. change (58 =? 58) with true. cbv iota. cbn [tl] in *. rewrite Hloc.
+      destruct (last_esc l' false); [reflexivity|rewrite Hgb; reflexivity].
     + destruct Hrun as [A B]. cbn [app] in S1. inversion S1. subst c0.
       rewrite (base_not_number c A).
       assert (Hn : not_name c = false).
@@ -131,5 +132,102 @@ Proof.
       { apply span_app2'.
         - apply forallb_forall. intros x Hx. rewrite forallb_forall in S2. rewrite (pnchar_not_name x (S2 x Hx)). reflexivity.
         - destruct r0 as [|y r0']; [exact I|]. cbn [starts_with] in Hc. apply N.eqb_eq in Hc. subst y. reflexivity. }
-      cbn [app] in Hspan. subst l'. rewrite Hspan. unfold give_back_dot at 1. rewrite B. rewrite Hc, Hloc, Hgb. reflexivity.
+      cbn [app] in Hspan. subst l'. rewrite Hspan. unfold give_back_dot at 1. rewrite B. rewrite Hc, Hloc.
+      destruct (last_esc (tl r0) false); [reflexivity|rewrite Hgb; reflexivity].
 Qed.
+
+(* the repaired rule (981b2a74): when the grammar's local part ends in an ESCAPED dot, qname sees that it was escaped *)
+Lemma last_esc_stop : forall rest cur, rest_ok rest -> last_esc rest cur = cur.
+Proof.
+  intros [|c r] cur H; [reflexivity|]. simpl in H. unfold stop_char in H. apply andb_true_iff in H. destruct H as [H1 H2].
+  apply negb_true_iff in H2. cbn [last_esc]. rewrite H2, H1. reflexivity.
+Qed.
+
+Lemma esc_dot_seen : forall n l f its rest, (length l <= n)%nat ->
+  t_items f l = (its, rest) -> (f = true -> starts_with 46 l = false) -> rest_ok rest ->
+  its <> [] -> last its (0, false) = (46, false) -> forall cur, last_esc l cur = true.
+Proof.
+  induction n as [|n IH]; intros l f its rest Hn H Hf Hr Hne Hl cur.
+  - destruct l; [|simpl in Hn; lia]. simpl in H. inversion H; subst. contradiction.
+  - destruct l as [|c r]; [simpl in H; inversion H; subst; contradiction|].
+    cbn [t_items] in H. cbn [last_esc]. simpl in Hn.
+    assert (Step : forall r1 x its', t_items false r1 = (its', rest) -> (length r1 <= n)%nat -> its = x :: its' ->
+              (its' = [] -> x = (46, false) -> forall b, last_esc r1 b = b) -> forall b, (x = (46, false) -> b = true) -> last_esc r1 b = true).
+    { intros r1 x its' Et Hlen Eits Hbase b Hb. destruct its' as [|y its''].
+      - subst its. cbn in Hl. rewrite (Hbase eq_refl Hl). apply Hb. exact Hl.
+      - apply (IH r1 false (y :: its'') rest Hlen Et); [discriminate|exact Hr|discriminate|].
+        subst its. exact Hl. }
+    assert (Base : forall r1 its', t_items false r1 = (its', rest) -> its' = [] -> forall b, last_esc r1 b = b).
+    { intros r1 its' Et E b. subst its'. assert (r1 = rest).
+      { destruct r1 as [|z r1']; [simpl in Et; inversion Et; reflexivity|].
+        cbn [t_items] in Et.
+        repeat match type of Et with
+               | context [if ?b then _ else _] => destruct b
+               | context [match ?x with _ => _ end] => destruct x
+               end; inversion Et; reflexivity. }
+      subst r1. apply last_esc_stop. exact Hr. }
+    destruct (c =? BSL) eqn:Eb.
+    { destruct r as [|e r']; [inversion H; subst; contradiction|].
+      destruct (pn_local_esc e) eqn:Ee; [|inversion H; subst; contradiction].
+      destruct (t_items false r') as [its' rest'] eqn:Et. inversion H; subst its rest'.
+      rewrite (esc_subset e Ee). apply (Step r' (e, false) its' Et); [simpl in Hn; lia|reflexivity|intros E _; apply (Base r' its' Et E)|reflexivity]. }
+    destruct (c =? 37) eqn:E37.
+    { apply N.eqb_eq in E37. subst c. change (not_qname 37) with false. cbv iota.
+      destruct r as [|h1 [|h2 r2]]; try (inversion H; subst; contradiction).
+      destruct (is_hex h1 && is_hex h2) eqn:Eh; [|inversion H; subst; contradiction].
+      destruct (t_items false (h1 :: h2 :: r2)) as [its' rest'] eqn:Et. inversion H; subst its rest'.
+      apply (Step _ (37, false) its' Et); [lia|reflexivity|intros E _; apply (Base _ its' Et E)|discriminate]. }
+    destruct ((c =? 46) && negb f) eqn:Ed.
+    { apply andb_true_iff in Ed. destruct Ed as [Ed _]. apply N.eqb_eq in Ed. subst c. change (not_qname 46) with false. cbv iota.
+      destruct (t_items false r) as [its' rest'] eqn:Et. inversion H; subst its rest'.
+      apply (Step _ (46, true) its' Et); [lia|reflexivity|intros E _; apply (Base _ its' Et E)|discriminate]. }
+    destruct ((if f then t_pn_chars_u c || is_digit c else t_pn_chars c) || (c =? 58)) eqn:Ec; [|inversion H; subst; contradiction].
+    assert (Hnq : not_qname c = false).
+    { apply orb_true_iff in Ec. destruct Ec as [Ec|Ec].
+      - apply pnchar_not_notq. destruct f; [|exact Ec]. unfold t_pn_chars. apply orb_true_iff in Ec.
+        destruct Ec as [Ec|Ec]; rewrite Ec; rewrite ?orb_true_r; reflexivity.
+      - apply N.eqb_eq in Ec. subst c. reflexivity. }
+    rewrite Hnq. destruct (t_items false r) as [its' rest'] eqn:Et. inversion H; subst its rest'.
+    assert (Hc46 : (c =? 46) = false).
+    { destruct (c =? 46) eqn:E46; [|reflexivity]. apply N.eqb_eq in E46. subst c. destruct f; discriminate. }
+    apply (Step _ (c, false) its' Et); [lia|reflexivity|intros E _; apply (Base _ its' Et E)|].
+    intro Ex. inversion Ex. subst c. discriminate.
+Qed.
+
+Theorem pname_read_escaped_dot : forall l run r0 its rest,
+  span (fun c => t_pn_chars c || (c =? 46)) l = (run, r0) ->
+  match run with [] => True | c :: _ => pn_chars_base c = true /\ (last run 0 =? 46) = false end ->
+  starts_with 58 r0 = true -> starts_with 46 (tl r0) = false ->
+  t_items true (tl r0) = (its, rest) -> rest_ok rest ->
+  its <> [] -> last its (0, false) = (46, false) ->
+  t_pname l = Some ((run, map fst its), rest) /\ n3_qname l = Some ((run, map fst its), rest).
+Proof.
+  intros l run r0 its rest Hsp Hrun Hc Hd Hit Hr Hne Hl.
+  assert (Hl1 : snd (last its (0, false)) = false) by (rewrite Hl; reflexivity).
+  assert (Hesc : last_esc (tl r0) false = true) by (apply (esc_dot_seen (length (tl r0)) (tl r0) true its rest (le_n _) Hit (fun _ => Hd) Hr Hne Hl)).
+  destruct (span_spec _ _ _ _ Hsp) as [S1 [S2 S3]].
+  split.
+  - unfold t_pname. rewrite Hsp, Hc. unfold t_local. rewrite Hit, (strip_id its Hl1). cbn [app].
+    destruct run as [|c run']; [reflexivity|]. destruct Hrun as [A B]. rewrite A, B. reflexivity.
+  - assert (Hloc : qloc (tl r0) = Some (map fst its, rest)).
+    { apply (local_scan (length (tl r0)) (tl r0) true its rest (le_n _) Hit (fun _ => Hd) Hr). }
+    unfold n3_qname. destruct l as [|c l']; [subst; destruct run; [destruct r0; discriminate|discriminate]|].
+    destruct run as [|c0 run'].
+    + (* no prefix: the name starts with ':' *)
+      cbn [app] in S1. subst r0. cbn [starts_with] in Hc. apply N.eqb_eq in Hc. subst c.
+      change (number_plus 58) with false. change (not_name 58) with true. cbv iota.
+      cbn [starts_with]. change (58 =? 58) with true. cbv iota. cbn [tl] in *. rewrite Hloc.
+      rewrite Hesc. reflexivity.
+    + destruct Hrun as [A B]. cbn [app] in S1. inversion S1. subst c0.
+      rewrite (base_not_number c A).
+      assert (Hn : not_name c = false).
+      { apply pnchar_not_name. cbn [forallb] in S2. apply andb_true_iff in S2. tauto. }
+      rewrite Hn.
+      assert (Hspan : span (fun x => negb (not_name x)) ((c :: run') ++ r0) = (c :: run', r0)).
+      { apply span_app2'.
+        - apply forallb_forall. intros x Hx. rewrite forallb_forall in S2. rewrite (pnchar_not_name x (S2 x Hx)). reflexivity.
+        - destruct r0 as [|y r0']; [exact I|]. cbn [starts_with] in Hc. apply N.eqb_eq in Hc. subst y. reflexivity. }
+      cbn [app] in Hspan. subst l'. rewrite Hspan. unfold give_back_dot at 1. rewrite B. rewrite Hc, Hloc.
+      rewrite Hesc. reflexivity.
+Qed.
+
